@@ -2,7 +2,9 @@
 
 import itertools
 from dataclasses import MISSING, dataclass, field
-from typing import List, Optional
+from typing import List, Optional, Tuple
+
+from vmc.tmod import ES
 
 from vmc import core
 
@@ -13,7 +15,7 @@ RULE = ("every point of the option lattice (Config x Config.dialect x call diale
         "plain output) with exact key order. Non-trivial: at least one option is in effect (the projection differs from the plain "
         "output); distinct = distinct (lattice point, instance).")
 ASSUMPTIONS = [
-    "one outer schema with aliased / nullable / defaulted / factory-defaulted / omitted / nested fields and two nested-class kinds",
+    "one outer schema with aliased / nullable / defaulted / factory-defaulted / omitted / nested / tuple-defaulted (one item, enum member, nested) fields and two nested-class kinds",
     "precedence: keyword > call dialect > Config.dialect > Config > default; flags reach a nested class only if both sides enabled them",
 ]
 UNIT_TIMEOUT = 900
@@ -138,12 +140,16 @@ def _build(cfg, cd, flags, sk, inner_kind, lazy, iflags=None):
         o: Optional[List[int]] = None
         h: int = field(default=5, metadata={"serialize": "omit"})
         m: Optional[Inner] = None
+        # tuple defaults: one item, an item without a literal form (enum member), nested
+        t: Tuple[int, ...] = (0,)
+        te: Tuple[ES, ...] = (ES.A,)
+        tn: Tuple[Tuple[int, ...], ...] = ((1,), (2, 3))
         Config = Cfg
     return M, Inner, inner_cfg, inner_flags
 
 
 FIELDS = [("z", None, MISSING), ("n", None, MISSING), ("b", "b_al", None), ("c", "c_al", "dflt"), ("a", None, 7),
-          ("l", None, []), ("o", None, None), ("m", None, None)]
+          ("l", None, []), ("o", None, None), ("m", None, None), ("t", None, (0,)), ("te", None, (ES.A,)), ("tn", None, ((1,), (2, 3)))]
 
 
 def _instances(M, Inner):
@@ -205,9 +211,11 @@ def run_unit(unit, only=None):
                     continue
                 nv = ivals[ni]
                 mv = None if ni == 0 else ivals[0]
-                inst = M(z=1, n=nv, b=b, c=c, a=a, l=list(l), o=None if o is None else list(o), m=mv)
-                raw = dict(z=1, n=nv, b=b, c=c, a=a, l=l, o=o, m=mv)
-                packed = dict(raw, n=inner_plain(nv), m=inner_plain(mv))
+                # the tuple fields hold their defaults exactly when `a` does
+                t, te, tn = ((0,), (ES.A,), ((1,), (2, 3))) if a == 7 else ((0, 0), (ES.A, ES.B), ((1,),))
+                inst = M(z=1, n=nv, b=b, c=c, a=a, l=list(l), o=None if o is None else list(o), m=mv, t=t, te=te, tn=tn)
+                raw = dict(z=1, n=nv, b=b, c=c, a=a, l=l, o=o, m=mv, t=t, te=te, tn=tn)
+                packed = dict(raw, n=inner_plain(nv), m=inner_plain(mv), t=list(t), te=[x.value for x in te], tn=[list(x) for x in tn])
                 items = [(f, al, raw[f], dflt, packed[f]) for f, al, dflt in FIELDS]
                 exp = project(items, on, od, ba, sk)
                 res.cases += 1
@@ -233,7 +241,7 @@ def run_unit(unit, only=None):
                         if x is None:
                             return None
                         return project([("p", "p_al", x.p, None, x.p), ("q", None, x.q, 1, x.q)], ai_on, i_od, ai_ba, False)
-                    apacked = dict(raw, n=inner_alt(nv), m=inner_alt(mv))
+                    apacked = dict(packed, n=inner_alt(nv), m=inner_alt(mv))
                     aitems = [(f, al, raw[f], dflt, apacked[f]) for f, al, dflt in FIELDS]
                     alt = project(aitems, a_on, od, a_ba, sk)
                     facts["kwflag_default_masks_call_dialect"] = bool(
